@@ -236,4 +236,23 @@ impl<T: PartialEq> HashSet<T> {
         }
         true
     }
+
+    pub fn iter(&self) -> SetIter<'_, T> {
+        SetIter { a: self.a.as_ref(), b: self.b.as_ref(), c: self.c.as_ref() }
+    }
+}
+
+pub struct SetIter<'a, T> {
+    a: Option<&'a T>,
+    b: Option<&'a T>,
+    c: Option<&'a T>,
+}
+impl<'a, T> Iterator for SetIter<'a, T> {
+    type Item = &'a T;
+    fn next(&mut self) -> Option<Self::Item> {
+        let out = self.a.take();
+        self.a = self.b.take();
+        self.b = self.c.take();
+        out
+    }
 }
